@@ -81,10 +81,12 @@ VARIABLES
                 \*         connection whose request produced it
     sock,       \* Unix socket file: "0600" | "absent"
     idleAge,    \* ghost: ticks since no registered connection is open (saturating at T)
+    prog,       \* ghost: how many times each critical section ran (what the notification
+                \*        hook points let a replay wait for): counted, done, timer
     hist
 
 state == <<lst, loop, held, backlog, active, timer, age, pending, curPending, shutdown, cl, sv,
-           out, ncalls, got, sock, idleAge>>
+           out, ncalls, got, sock, idleAge, prog>>
 vars == <<state, hist>>
 
 Registered(c) == sv[c] \in {"serving", "handler"}
@@ -96,8 +98,10 @@ Min(a, b) == IF a < b THEN a ELSE b
 Snapshot ==
     [returned |-> Returned,
      sock     |-> IF Transport # "unix" THEN "n/a" ELSE IF sock = "0600" THEN "0600" ELSE "gone",
+     accepting |-> lst = "open",
      in_call  |-> [c \in Conn |-> sv[c] = "handler"],
      got      |-> got,
+     progress |-> prog,
      parked_accept |-> IF Hooks THEN held ELSE 0,
      parked_timers |-> IF Hooks THEN pending ELSE 0]
 
@@ -140,7 +144,7 @@ Open(c) ==
        ELSE /\ cl' = [cl EXCEPT ![c] = "refused"]
             /\ UNCHANGED <<sv, backlog>>
     /\ UNCHANGED <<lst, loop, held, active, timer, age, pending, curPending, shutdown, out, ncalls, got,
-                   sock, idleAge>>
+                   sock, idleAge, prog>>
     /\ Drive([a |-> "Open", args |-> [c |-> c], exp |-> [connected |-> lst = "open"]])
 
 \* the client closes its end; it never does so with a call outstanding
@@ -149,7 +153,7 @@ Close(c) ==
     /\ cl[c] = "open" /\ ~out[c]
     /\ cl' = [cl EXCEPT ![c] = "closed"]
     /\ UNCHANGED <<lst, loop, held, backlog, active, timer, age, pending, curPending, shutdown, sv, out,
-                   ncalls, got, sock, idleAge>>
+                   ncalls, got, sock, idleAge, prog>>
     /\ Drive([a |-> "Close", args |-> [c |-> c], exp |-> [closed |-> TRUE]])
 
 \* the client writes one request (an echo of a payload only this connection uses)
@@ -159,7 +163,7 @@ CallStart(c) ==
     /\ sv[c] \in {"queued", "accepted", "serving"}
     /\ out' = [out EXCEPT ![c] = TRUE]
     /\ UNCHANGED <<lst, loop, held, backlog, active, timer, age, pending, curPending, shutdown, cl, sv,
-                   ncalls, got, sock, idleAge>>
+                   ncalls, got, sock, idleAge, prog>>
     /\ Drive([a |-> "CallStart", args |-> [c |-> c, k |-> ncalls[c] + 1], exp |-> [sent |-> TRUE]])
 
 \* the handler returns; the serve loop writes the response on ITS connection
@@ -171,7 +175,7 @@ CallFinish(c) ==
     /\ ncalls' = [ncalls EXCEPT ![c] = @ + 1]
     /\ got' = [got EXCEPT ![c] = Append(@, c)]
     /\ UNCHANGED <<lst, loop, held, backlog, active, timer, age, pending, curPending, shutdown, cl,
-                   sock, idleAge>>
+                   sock, idleAge, prog>>
     /\ Drive([a |-> "CallFinish", args |-> [c |-> c, k |-> ncalls[c] + 1], exp |-> [resp |-> c]])
 
 (* Time.                                                                   *)
@@ -185,7 +189,7 @@ Tick ==
     /\ Mode = "mc"
     /\ Advance(1)
     /\ UNCHANGED <<lst, loop, held, backlog, active, timer, pending, curPending, shutdown, cl, sv, out,
-                   ncalls, got, sock>>
+                   ncalls, got, sock, prog>>
     /\ hist' = hist
 
 \* generation: the client does nothing for well over an idle timeout
@@ -193,7 +197,7 @@ Wait ==
     /\ Mode # "mc" /\ Budget /\ Ready /\ ~Returned
     /\ Advance(T)
     /\ UNCHANGED <<lst, loop, held, backlog, active, timer, pending, curPending, shutdown, cl, sv, out,
-                   ncalls, got, sock>>
+                   ncalls, got, sock, prog>>
     /\ Drive([a |-> "Wait", args |-> [x |-> 0], exp |-> [waited |-> TRUE]])
 
 --------------------------------------------------------------------------
@@ -204,7 +208,7 @@ AcceptReturns ==
     /\ held' = Head(backlog)
     /\ backlog' = Tail(backlog)
     /\ sv' = [sv EXCEPT ![Head(backlog)] = "accepted"]
-    /\ UNCHANGED <<lst, active, timer, age, pending, curPending, shutdown, cl, out, ncalls, got, sock, idleAge>>
+    /\ UNCHANGED <<lst, active, timer, age, pending, curPending, shutdown, cl, out, ncalls, got, sock, idleAge, prog>>
     /\ Self
 
 \* mu{ active++; disarm() }; wg.Add(1); go serve(conn)
@@ -215,6 +219,7 @@ CountStep ==
     /\ sv' = [sv EXCEPT ![held] = "serving"]
     /\ loop' = "accept" /\ held' = 0
     /\ idleAge' = 0
+    /\ prog' = [prog EXCEPT !.counted = @ + 1]
     /\ UNCHANGED <<lst, backlog, pending, shutdown, cl, out, ncalls, got, sock>>
 
 Count ==
@@ -229,7 +234,7 @@ AcceptFails ==
     /\ loop' = "exited"
     /\ timer' = "none" /\ age' = 0 /\ curPending' = FALSE
     /\ UNCHANGED <<lst, held, backlog, active, pending, shutdown, cl, sv, out, ncalls, got,
-                   sock, idleAge>>
+                   sock, idleAge, prog>>
     /\ Self
 
 \* wg.Wait() is over; return; deferred ln.Close() and os.Remove(path)
@@ -238,7 +243,7 @@ Return ==
     /\ loop' = "returned"
     /\ sock' = "absent"
     /\ UNCHANGED <<lst, held, backlog, active, timer, age, pending, curPending, shutdown, cl, sv, out,
-                   ncalls, got, idleAge>>
+                   ncalls, got, idleAge, prog>>
     /\ Self
 
 (* Per-connection serve goroutine.                                         *)
@@ -247,7 +252,7 @@ HandlerEnter(c) ==
     /\ sv[c] = "serving" /\ out[c]
     /\ sv' = [sv EXCEPT ![c] = "handler"]
     /\ UNCHANGED <<lst, loop, held, backlog, active, timer, age, pending, curPending, shutdown, cl, out,
-                   ncalls, got, sock, idleAge>>
+                   ncalls, got, sock, idleAge, prog>>
     /\ Self
 
 \* EOF on c: conn.Close(); mu{ active--; if active == 0 && !shutdown { arm(idle) } }
@@ -258,6 +263,7 @@ ConnDone(c) ==
     /\ IF active - 1 = 0 /\ ~shutdown
        THEN timer' = "idle" /\ age' = 0 /\ curPending' = FALSE
        ELSE UNCHANGED <<timer, age, curPending>>
+    /\ prog' = [prog EXCEPT !.done = @ + 1]
     /\ UNCHANGED <<lst, loop, held, backlog, pending, shutdown, cl, out, ncalls, got, sock, idleAge>>
     /\ Self
 
@@ -269,11 +275,12 @@ TimerExpire ==
     /\ pending' = pending + 1
     /\ curPending' = TRUE
     /\ UNCHANGED <<lst, loop, held, backlog, active, age, shutdown, cl, sv, out, ncalls, got,
-                   sock, idleAge>>
+                   sock, idleAge, prog>>
     /\ Self
 
 \* what the func does once it has mu:
-\*   active == 0: shutdown = true; ln.Close() — connections still in the backlog are lost
+\*   active == 0: shutdown = true; ln.Close() — connections still in the backlog are lost,
+\*                and closing a Go UnixListener unlinks its socket file
 \*   active > 0 : nothing
 Decide ==
     IF active = 0
@@ -281,7 +288,8 @@ Decide ==
          /\ lst' = "closed"
          /\ sv' = [c \in Conn |-> IF sv[c] = "queued" THEN "dropped" ELSE sv[c]]
          /\ backlog' = <<>>
-    ELSE UNCHANGED <<shutdown, lst, sv, backlog>>
+         /\ sock' = "absent"
+    ELSE UNCHANGED <<shutdown, lst, sv, backlog, sock>>
 
 \* the func of the timer the `timer` variable still refers to
 TimerFire_CurrentStep ==
@@ -289,14 +297,16 @@ TimerFire_CurrentStep ==
     /\ pending' = pending - 1
     /\ curPending' = FALSE
     /\ Decide
-    /\ UNCHANGED <<loop, held, active, timer, age, cl, out, ncalls, got, sock, idleAge>>
+    /\ prog' = [prog EXCEPT !.timer = @ + 1]
+    /\ UNCHANGED <<loop, held, active, timer, age, cl, out, ncalls, got, idleAge>>
 
 \* the func of a timer that expired and was then disarmed (Stop came too late)
 TimerFire_StaleStep ==
     /\ pending > (IF curPending THEN 1 ELSE 0)
     /\ pending' = pending - 1
-    /\ IF StaleFix THEN UNCHANGED <<shutdown, lst, sv, backlog>> ELSE Decide
-    /\ UNCHANGED <<loop, held, active, timer, age, curPending, cl, out, ncalls, got, sock, idleAge>>
+    /\ IF StaleFix THEN UNCHANGED <<shutdown, lst, sv, backlog, sock>> ELSE Decide
+    /\ prog' = [prog EXCEPT !.timer = @ + 1]
+    /\ UNCHANGED <<loop, held, active, timer, age, curPending, cl, out, ncalls, got, idleAge>>
 
 TimerFire ==
     IF Hooks
@@ -318,6 +328,7 @@ Init ==
     /\ got = [c \in Conn |-> <<>>]
     /\ sock = "0600"
     /\ idleAge = 0
+    /\ prog = [counted |-> 0, done |-> 0, timer |-> 0]
     /\ hist = << [a |-> "Init",
                   args |-> [NC |-> NC, Transport |-> Transport, Hooks |-> Hooks, T |-> T,
                             StaleFix |-> StaleFix],
@@ -382,7 +393,8 @@ OwnResponsesOnly ==
 NeverBothInCall == Cardinality({c \in Conn : sv[c] = "handler"}) <= 1
 
 \* the Unix socket file is owner-only while serving and removed on return
-SocketFile == IF Returned THEN sock = "absent" ELSE sock = "0600"
+SocketFile == /\ ~shutdown => sock = "0600"
+              /\ Returned => sock = "absent"
 
 \* once every client is gone the listener returns
 AllClientsGone == \A c \in Conn : cl[c] \in {"closed", "refused"}
